@@ -24,6 +24,7 @@ Good ==
   \cup { St("write:" \o v \o "." \o k, SExpr(PAsg(Id(v), k, Fresh))) : v \in Vars, k \in Keys3 }
   \cup { St("litwrap:" \o v, SExpr(Asg(v, Obj(<<"in", "arr">>, <<Id(Other(v)), Arr(<<Id(Other(v))>>)>>)))) : v \in {"o"} }     \* an existing object as a value of a literal: shared, not copied
   \cup { St("delnf:" \o v \o "." \o IntStr(i), SExpr(Call(Id("delkey"), <<Id(v), Lit(VStr(IF i = 1 THEN <<2527>> ELSE <<2479, 2492>>))>>))) : v \in {"o"}, i \in {1, 2} }
+  \cup { St("chain:" \o v, SPrint(PAsg(Id(v), "a", PAsg(Id(Other(v)), "b", Fresh)))) : v \in Vars }       \* the value of a property assignment is the assigned value
   \cup { St("writenil:" \o v \o "." \o k, SExpr(PAsg(Id(v), k, Lit(VNil)))) : v \in Vars, k \in {"a"} }     \* a property holding nil exists
   \cup { St("litnil:" \o v, SExpr(Asg(v, Obj(<<"b", "a">>, <<Lit(VNil), Lit(VNil)>>)))) : v \in {"o"} }
   \cup { St("del:" \o v \o "." \o k, SExpr(Call(Id("delkey"), <<Id(v), Str(k)>>))) : v \in Vars, k \in Keys3 }
